@@ -29,7 +29,7 @@ NO = 3
 RULE = ("seeded cases (mask with holes/components whose kernel footprint stays in the frame, odd kernel with independent "
         "sizes 1..7 per axis and entries positive/signed/asymmetric/sparse/spike); a case = (mask, kernel); distinct by "
         "(mask bits, kernel bytes); non-trivial = kernel larger than 1x1 and >= 2 unmasked pixels")
-BOUNDS = {"quick": "960 (mask,kernel) operators fully extracted, frames up to 12x14, <=45 unmasked pixels, 160 simulations",
+BOUNDS = {"quick": "2400 (mask,kernel) operators fully extracted, frames up to 12x14, <=45 unmasked pixels, 400 simulations",
           "thorough": "64000 operators fully extracted, 9600 simulations"}
 EXHAUSTIVE = {"quick": False, "thorough": False}
 ASSUMPTIONS = ["float comparisons: |got-ref| <= 1e-10*max(1,|ref|inf) (pure sums of products of the same operands)",
@@ -42,8 +42,8 @@ TOL = 1e-10
 
 
 def plan(tier, seed):
-    n = 960 if tier == "quick" else 64000
-    nsim = 160 if tier == "quick" else 9600
+    n = 2400 if tier == "quick" else 64000
+    nsim = 400 if tier == "quick" else 9600
     step = 16 if tier == "quick" else 50
     units = [{"kind": "op", "start": s, "stop": min(n, s + step), "w": step} for s in range(0, n, step)]
     units += [{"kind": "sim", "start": s, "stop": min(nsim, s + step), "w": step * 0.5} for s in range(0, nsim, step)]
